@@ -250,7 +250,8 @@ func checkC07(c c07Case) string {
 	if c.BadExt != "" {
 		p := filepath.Join(dir, "in."+c.BadExt)
 		_ = os.WriteFile(p, c.Doc, 0o644)
-		if _, err := astisub.OpenFile(p); !errors.Is(err, astisub.ErrInvalidExtension) {
+		readable := strings.EqualFold(c.BadExt, "ts") // a source format only: there is no teletext writer
+		if _, err := astisub.OpenFile(p); !readable && !errors.Is(err, astisub.ErrInvalidExtension) {
 			return fmt.Sprintf("Open of a .%s file returned %v, expected ErrInvalidExtension", c.BadExt, err)
 		}
 		s := astisub.NewSubtitles()
@@ -620,6 +621,10 @@ func genC07Ops(t *rapid.T, maxEnd int64, withMerge bool) []c07Op {
 			if op.D == 0 {
 				op.D = nsMs
 			}
+			if rapid.IntRange(0, 7).Draw(t, "farshift") == 0 {
+				// past the hundredth hour: three-digit hours are legal in every text format
+				op.D = (100*3600000 + rapid.Int64Range(0, 5*3600000).Draw(t, "far")) * nsMs
+			}
 		case "fragment":
 			op.D = rapid.Int64Range(300000, maxEnd/nsMs+2).Draw(t, "f") * nsMs
 		case "linear":
@@ -694,7 +699,7 @@ func TestC07(t *testing.T) {
 				}
 			}
 		}
-		for _, bad := range []string{"txt", "sub", "SRTX", "x", "ttm", "vt"} {
+		for _, bad := range []string{"txt", "sub", "SRTX", "x", "ttm", "vt", "ts", "TS", "m2ts", "srt.bak", "stlx"} {
 			ev.CaseH(true, strHash("bad"+bad), "invalid-extension")
 			verdict(t, "C07", "c07", c07Case{BadExt: bad, Doc: []byte("1\n00:00:01,000 --> 00:00:02,000\nx\n")}, checkC07)
 		}
